@@ -125,6 +125,58 @@ def ob_check(w, P):
     return x.result()
 
 
+def ob_check_reldir(w, P):
+    """the cache was opened through a RELATIVE directory path (as in the documentation): check(fix=True) removes unknown files and
+    empty directories there too, and a second check reports nothing; the stored item survives"""
+    import os
+    L = w.L
+    core = L.core
+    w.clock_fn = lambda: 1000.0
+    cl = []
+    old_cwd = None
+    if w.is_real:
+        old_cwd = os.getcwd()
+        os.chdir(w.root)
+        rel = 'relcache'
+    else:
+        rel = 'relcache'
+        w.fs.add_dir(rel)
+    try:
+        kind = P.get('kind', 'cache')
+        if kind == 'fanout':
+            c = L.fanout.FanoutCache(rel, shards=2, disk_min_file_size=0)
+            shard_dir = c._shards[1]._directory
+        else:
+            c = core.Cache(rel, disk_min_file_size=0)
+            shard_dir = c._directory
+        c.set(1, b'file-backed-value')
+        stray_sub = bool(w.bool('stray_in_subdir'))
+        stray_top = bool(w.bool('stray_at_top'))
+
+        class _C:
+            _directory = shard_dir
+        if stray_sub:
+            w.add_extra(_C, 'ab/cd/stray.val', True, size=1)
+        if stray_top:
+            w.add_extra(_C, 'stray.tmp', True, size=1)
+        w.add_extra(_C, 'ee/ff', True, is_dir=True)
+        w.start_events()
+        with warnings.catch_warnings():
+            warnings.simplefilter('always')
+            ws1 = c.check(fix=True)
+            ws2 = c.check()
+        w.stop_events()
+        k1, k2 = kinds_of(ws1), kinds_of(ws2)
+        cl.append(('C17', 'check(fix=True) on a relative directory reports every unknown file', k1['unknown'] == int(stray_sub) + int(stray_top)))
+        cl.append(('C17', 'and afterwards a second check reports nothing (the files and directories really are gone)', all(k2[k] == 0 for k in k2)))
+        got = c.get(1)
+        cl.append(('C17,C01', 'the stored item is untouched', got == b'file-backed-value' if isinstance(got, bytes) else got is not None))
+    finally:
+        if old_cwd is not None:
+            os.chdir(old_cwd)
+    flag('nontrivial')
+    return cl
+
 def jobs(tier):
     out = []
     Ns = [1, 2] if tier == 'quick' else [1, 2, 3]
@@ -133,6 +185,8 @@ def jobs(tier):
         for fix in (False, True):
             out.append(dict(id='check.N=%d.fix=%s' % (N, fix), func='ob_check', params=dict(N=N, fix=fix), tags=['C17', 'C08'], functions=F, weight=N * 10,
                             must_reach=['fixed' if fix else 'report_only']))
+    for kind in ('cache', 'fanout'):
+        out.append(dict(id='check.reldir.%s' % kind, func='ob_check_reldir', params=dict(kind=kind), tags=['C17'], functions=F + ['core.Disk.remove'], weight=5, twin=False))
     for fix in (False, True):
         out.append(dict(id='check.busy.noretry.fix=%s' % fix, func='ob_check', params=dict(N=1, fix=fix, busy=1), tags=['C17', 'C14'], functions=F, weight=10, must_reach=['timeout_raised']))
         out.append(dict(id='check.busy.retry.fix=%s' % fix, func='ob_check', params=dict(N=1, fix=fix, busy=1, retry=True), tags=['C17', 'C14'], functions=F, weight=20,
